@@ -1273,6 +1273,22 @@ class Interp:
                 for (mm, val), it in zip(forks, items):
                     mm.events.append(('peel', last, it))
                 return forks
+        # --- bool::then_some / bool::then: Some(..) on true, None on false; an unknown condition forks
+        if re.search(r'bool::<impl bool>::then_some$', path):
+            some = Agg('core::option::Option', 'Some', [deref(args[1]) if len(args) > 1 else TOP])
+            none = Agg('core::option::Option', 'None', [])
+            if isinstance(a0d, Const):
+                return some if a0d.v else none
+            return self.fork_values(m, [some, none])
+        if re.search(r'bool::<impl bool>::then$', path):
+            none = Agg('core::option::Option', 'None', [])
+            if isinstance(a0d, Const) and not a0d.v:
+                return none
+            m_none = None if isinstance(a0d, Const) else fork(m)     # fork before the closure's events are recorded
+            some = self.option_hof(m, f, t, 'map', Agg('core::option::Option', 'Some', [NOTHING_VAL]), args, unit_arg=True)
+            if m_none is None:
+                return some
+            return [(m, some), (m_none, none)]
         # --- Option helpers with constant receivers
         if path.startswith('std::option::Option::<T>::'):
             x = a0d
@@ -1337,7 +1353,7 @@ class Interp:
             out.append((fork(m), v))
         return out
 
-    def option_hof(self, m, f, t, which, opt, args):
+    def option_hof(self, m, f, t, which, opt, args, unit_arg=False):
         if opt.variant == 'None':
             if which in ('map', 'and_then', 'filter'):
                 return Agg('core::option::Option', 'None', [])
@@ -1353,7 +1369,9 @@ class Interp:
                 # synthesise a nested run: closure(env, (payload,)) ; result mapped after return by a continuation marker
                 sub = Machine()
                 sub.events = m.events
-                cells = {1: Cell('env', fv), 2: Cell('a0', opt.fields[0])}
+                cells = {1: Cell('env', fv)}
+                if not unit_arg:
+                    cells[2] = Cell('a0', opt.fields[0])
                 sub.frames.append(Frame(body, cells))
                 sub.visits = {}
                 try:
